@@ -76,6 +76,7 @@ class Oracles:
         self.props = set(props)  # property ids whose oracles raise; the others are still computed for attribution
         self.pending = None  # first violation found inside a commit hook (raised by the world loop)
         self.n_commits = 0
+        self.mem_mismatch = {}  # instance name -> (first seen, kind): driver memory differs from the database
         self.cancelled_before = set()  # (batch, group) effectively... explicitly cancelled, committed earlier
         self.committed_updates = set()
         self.proc_errors = []
@@ -211,6 +212,25 @@ class Oracles:
                             if old[jc]:
                                 self.fail('C05', 'deps', f'C05/cancelled_child_ran/{n}',
                                           f'job {key} marked cancelled (failed parent) moved {o} -> {n}')
+                        if n == 'Cancelled' and not (old[jc] or new[jc] or eff.get((new[jb], new[jg]), False)):
+                            # "jobs in sibling or ancestor groups are unaffected": a job may only be marked
+                            # Cancelled if it carries the cancelled flag (failed parent) or its group / an ancestor
+                            # group is cancelled in the state this transaction commits
+                            self.fail('C07', 'cancel_scope', 'C07/job_cancelled_outside_cancelled_subtree',
+                                      f'job {key} of group {new[jg]} moved {o} -> Cancelled although neither it nor '
+                                      f'any ancestor group is cancelled')
+                        if n == 'Ready' and o in ('Creating', 'Running') and old[jat] is not None:
+                            # the attempt is withdrawn: the job's CURRENT attempt must have been ended by this very
+                            # transaction (unschedule_job / deactivate_instance); otherwise the job is re-queued while
+                            # its current attempt is alive and it will run twice
+                            ar = A.t.pk_index.get((new[jb], new[jj], old[jat]))
+                            if ar is None:
+                                ar = next((rid for rid, r in A.t.rows.items() if r[A.col('batch_id')] == new[jb]
+                                           and r[A.col('job_id')] == new[jj] and r[A.col('attempt_id')] == old[jat]), None)
+                            if ar is not None and A.t.rows[ar][A.col('end_time')] is None:
+                                self.fail('C39', 'current_attempt', 'C39/requeued_with_open_current_attempt',
+                                          f'job {key} moved {o} -> Ready although its current attempt {old[jat]} '
+                                          f'is still open')
                         if n == 'Ready' and o == 'Pending':
                             self._check_parents_terminal(key, 'became Ready')
                         if n in TERMINAL:
@@ -247,6 +267,69 @@ class Oracles:
                     if x != g and (b, x) in self.cancelled_before:
                         self.fail('C07', 'cancel_scope', 'C07/group_added_under_cancelled_group',
                                   f'group {(b, g)} created beneath cancelled group {x}')
+
+    # ---- C10: the driver's in-memory mirror of instance state / free cores ------------------------------
+    MEM_SETTLE_S = 60.0
+
+    def check_memory(self, now):
+        """sampled by a harness task every few simulated seconds.  The in-memory Instance objects are an eventually
+        consistent mirror of `instances` / `instances_free_cores_mcpu` (reservations and releases are applied just
+        before / after the database call), so a momentary difference is normal; a difference that is still there
+        MEM_SETTLE_S simulated seconds later, at every sample in between, is not."""
+        app = getattr(self.w, 'driver_app', None)
+        if app is None or 'driver' not in app:
+            return
+        try:
+            mem = app['driver'].inst_coll_manager.name_instance
+        except Exception:  # pylint: disable=broad-except
+            return
+        I, F = self.inst, self.ifree
+        seen = set()
+        db_rows = {r[I.col('name')]: r for r in I.rows()}
+        db_frees = {r[F.col('name')]: r[F.col('free_cores_mcpu')] for r in F.rows()}
+        for name, inst in sorted(mem.items()):
+            row = db_rows.get(name)
+            if row is None:
+                continue
+            db_state = row[I.col('state')]
+            db_free = db_frees.get(name)
+            m_state, m_free = inst.state, inst.free_cores_mcpu
+            kind = None
+            if m_state != db_state:
+                kind = 'state'
+            elif db_free is not None and m_free != db_free:
+                kind = 'free_cores'
+            if kind is None:
+                self.mem_mismatch.pop(name, None)
+                continue
+            seen.add(name)
+            first = self.mem_mismatch.get(name)
+            if first is None or first[1] != kind:
+                self.mem_mismatch[name] = (now, kind)
+                continue
+            if now - first[0] > self.MEM_SETTLE_S:
+                self.ctx.probe('mem_mirror_diverged')
+                A, J = self.attempts, self.jobs
+                open_att = []
+                for r in A.rows():
+                    if r[A.col('instance_name')] == name and r[A.col('end_time')] is None:
+                        jr = next((x for x in J.rows() if x[J.col('batch_id')] == r[A.col('batch_id')]
+                                   and x[J.col('job_id')] == r[A.col('job_id')]), None)
+                        open_att.append((r[A.col('batch_id')], r[A.col('job_id')], r[A.col('attempt_id')],
+                                         jr[J.col('state')] if jr else None, jr[J.col('attempt_id')] if jr else None,
+                                         jr[J.col('cores_mcpu')] if jr else None))
+                # history attribution: was a procedure call naming this instance re-issued by gear.database because its
+                # connection was lost AFTER the call had committed?  (The repeated call then answers delta_cores = 0.)
+                retried = sorted({p for p, a in getattr(self.w, 'ack_lost_calls', []) if name in a})
+                suffix = '/after_retried_call' if retried else ''
+                self.fail('C10', 'memory_mirror', f'C10/in_memory_{kind}_diverged{suffix}',
+                          f'[re-issued after ack loss: {retried}] ' * bool(retried) +
+                          f'instance {name}: driver memory has state {m_state}, free {m_free}; database has state '
+                          f'{db_state}, free {db_free}; different at every sample for {now - first[0]:.0f} s; open '
+                          f'attempts on it (batch, job, attempt, job state, job attempt, cores): {open_att}')
+        for name in list(self.mem_mismatch):
+            if name not in mem:
+                del self.mem_mismatch[name]
 
     def _check_parents_terminal(self, key, what):
         b, j = key
@@ -492,6 +575,12 @@ class Oracles:
             st = r[bt.col('state')]
             if r[bt.col('n_jobs')] != n:
                 self.fail('C06', 'n_jobs', 'C06/batch_n_jobs_mismatch', f'batch {b}: n_jobs {r[bt.col("n_jobs")]} != {n}')
+            if st != 'complete' and all_done and n > 0 and any(
+                    r2[self.bu.col('batch_id')] == b and not r2[self.bu.col('committed')] for r2 in self.bu.rows()):
+                # every committed job is terminal, yet the batch is kept running while an uncommitted update exists:
+                # the uncommitted update contributes to the completion decision
+                self.fail('C41', 'uncommitted', 'C41/uncommitted_update_blocks_batch_completion',
+                          f'batch {b}: all {n} committed jobs are terminal, state {st}, an uncommitted update exists')
             if (st == 'complete') != all_done:
                 self.fail('C06', 'completion', f'C06/batch_state_{st}_but_all_done_{all_done}',
                           f'batch {b}: state {st}, committed jobs {n}, non-terminal {live.get(k, 0)}')
